@@ -258,9 +258,20 @@ def drive_hypothesis(ctx: ShardContext, idx: int, eng: Engine) -> None:
         out = guarded_check(eng, case)
         ctx.record(eng.name, case, out)
 
+    def _only_stop(exc) -> bool:
+        if isinstance(exc, _Stop):
+            return True
+        if isinstance(exc, BaseExceptionGroup):
+            return all(_only_stop(e) for e in exc.exceptions)
+        return False
+
     try:
         collect()
-    except _Stop:
+    except BaseException as exc:
+        # Hypothesis reports the stop as FlakyFailure (an exception group) when the example that hit the deadline
+        # had been seen - and passed - before the deadline
+        if not _only_stop(exc):
+            raise
         ctx.stats.notes.setdefault("time_budget_reached", collections.Counter())[eng.name] += 1
         return
     # Thorough tier: shrink the first few unknown signatures with Hypothesis itself.
@@ -429,7 +440,9 @@ def parent(modname: str, tier: str, seed: int, only: str | None, nshards_opt: in
         failed = []
         for tag, p in procs:
             try:
-                so, se = p.communicate(timeout=max(5, limit - (time.time() - t0)))
+                # shards stop generating at 80 % of the limit; a case that is in flight then may still take
+                # minutes (budgeted parser runs), so the hard stop comes well after the limit
+                so, se = p.communicate(timeout=max(5, limit + 900 - (time.time() - t0)))
             except subprocess.TimeoutExpired:
                 p.kill()
                 so, se = p.communicate()
